@@ -414,4 +414,99 @@ example : Spec.dynCount (specDynEntries exImg 5) = 3 ∧
     Spec.dynGet (specDynEntries exImg 5) (linkedTable exImg 5) 0 = .ok 1 1 [0x66, 0x6f, 0x6f] ∧
     Spec.dynGet (specDynEntries exImg 5) (linkedTable exImg 5) 3 = .invalid := by decide +kernel
 
+/-! ### 2e. notes (C13): section accessor and PT_NOTE segment accessor -/
+
+theorem noteStarts_length (e : Enc) (ns : List Spec.Note) : ∀ base, (Spec.noteStarts e base ns).length = ns.length := by
+  induction ns with
+  | nil => intro _; rfl
+  | cons n ns ih => intro base; simp [Spec.noteStarts, ih]
+
+/-- what `get_note(k)` must hand back when the source holds the notes `ns` -/
+def specNote (ns : List Spec.Note) (k : Nat) : Option NoteOut :=
+  if h : k < ns.length then some (C13.outOf ns[k]) else none
+
+/-- the note accessor on a source whose visible bytes are the gABI encoding of the notes `ns` -/
+theorem note_source_reports (e : Enc) (src : NoteSrc) (h : C13.SrcOk src) (hs : src.size.toNat ≤ 4294967293)
+    (ns : List Spec.Note) (hf : ∀ n ∈ ns, n.Fits) (hv : C13.NoteSrc.view src = Spec.encodeNotes e ns) :
+    ∃ pos, Note.process e src = .ok pos ∧ (Note.num pos).toNat = ns.length ∧
+      ∀ k : BitVec 32, Note.get e src pos k = .ok (specNote ns k.toNat) := by
+  obtain ⟨pos, hp, hm⟩ := C13.walker_positions e src h hs ns hf hv
+  obtain ⟨g1, g2⟩ := C13.get_of_starts e src h hs ns hf hv pos hm
+  refine ⟨pos, hp, g1, ?_⟩
+  intro k
+  have hpl : pos.length = ns.length := by
+    have := congrArg List.length hm
+    simpa [noteStarts_length] using this
+  unfold specNote
+  by_cases hk : k.toNat < ns.length
+  · rw [dif_pos hk]
+    have := g2 k.toNat hk
+    rwa [BitVec.ofNat_toNat, BitVec.setWidth_eq] at this
+  · rw [dif_neg hk]
+    exact C13.get_note_absent e src pos k (by omega)
+
+/-- **notes_reports_spec** (section accessor): for a section `i` of at most 2^32-3 bytes whose file bytes
+    are the gABI encoding of a sequence of notes `ns` (each with 32-bit fields; `hbytes` is decidable for a given
+    `ns`), `note_section_accessor(elf, sections[i])` on the loaded object reports `get_notes_num() = |ns|` and, for
+    EVERY 32-bit `k`, `get_note(k, type, name, desc, descSize)` = type, name (without terminator) and descriptor
+    (null pointer when empty) of the `k`-th note; every `k ≥ |ns|` is refused. -/
+theorem notes_reports_spec (img : Bytes) (hwf : WellFormedImage img) (o : Obj) (hL : LoadedFrom img o) (i : Nat)
+    (hi : i < eh img "e_shnum") (ns : List Spec.Note) (hf : ∀ n ∈ ns, n.Fits)
+    (hbytes : secFileBytes img i = Spec.encodeNotes (encOf img) ns) (hsz : sh img i "sh_size" ≤ 4294967293)
+    (k : BitVec 32) :
+    ∃ o1, LoadedFrom img o1 ∧ inspect o (.noteNum i) = .ok (o1, .num ns.length) ∧
+      inspect o (.note i k) = .ok (o1, .note (specNote ns k.toNat)) := by
+  obtain ⟨o1, b1, h1, hL1, hR1, _, he1, _⟩ := secResident_ready img hwf o hL i hi
+  have hok : C13.SrcOk b1.noteSrc := by
+    intro a ha
+    have := hR1.alloc a ha
+    simp only [SecBuf.noteSrc] at *
+    omega
+  have hv : C13.NoteSrc.view b1.noteSrc = Spec.encodeNotes (encOf img) ns := by
+    rw [← hbytes, ← hR1.view]; rfl
+  obtain ⟨pos, hp, hn, hg⟩ := note_source_reports (encOf img) b1.noteSrc hok
+    (by simp only [SecBuf.noteSrc]; rw [hR1.size]; exact hsz) ns hf hv
+  have henc : o1.enc = encOf img := hL1.enc
+  refine ⟨o1, hL1, ?_, ?_⟩
+  · simp only [inspect, h1, henc, hp, hn]; rfl
+  · simp only [inspect, h1, henc, hp, hg k]; rfl
+
+/-- **segment_notes_reports_spec** (PT_NOTE segment accessor): the same for
+    `note_segment_accessor(elf, segments[j])` and the bytes of `img` in the segment's file range
+    (`C02.segFileBytes img j` = `slice img p_offset p_filesz`) -/
+theorem segment_notes_reports_spec (img : Bytes) (o : Obj) (hL : LoadedFrom img o) (hS : SegsFrom img o) (j : Nat)
+    (hj : j < eh img "e_phnum") (ns : List Spec.Note) (hf : ∀ n ∈ ns, n.Fits)
+    (hbytes : segFileBytes img j = Spec.encodeNotes (encOf img) ns) (hsz : ph img j "p_filesz" ≤ 4294967293)
+    (k : BitVec 32) :
+    ∃ o1, LoadedFrom img o1 ∧ inspect o (.segNoteNum j) = .ok (o1, .num ns.length) ∧
+      inspect o (.segNote j k) = .ok (o1, .note (specNote ns k.toNat)) := by
+  obtain ⟨o1, g1, h1, hL1, _, hfs, hd, hlen⟩ := segResident_ready img o hL hS j hj
+  have hok : C13.SrcOk (segNoteSrc g1) := fun a ha => hlen a ha
+  have hv : C13.NoteSrc.view (segNoteSrc g1) = Spec.encodeNotes (encOf img) ns := by
+    rw [← hbytes, ← hd]; rfl
+  obtain ⟨pos, hp, hn, hg⟩ := note_source_reports (encOf img) (segNoteSrc g1) hok
+    (by simp only [segNoteSrc]; rw [hfs]; exact hsz) ns hf hv
+  have henc : o1.enc = encOf img := hL1.enc
+  refine ⟨o1, hL1, ?_, ?_⟩
+  · simp only [inspect, h1, henc, hp, hn]; rfl
+  · simp only [inspect, h1, henc, hp, hg k]; rfl
+
+/-- the two notes of the example image: ("GNU", 01 02 03 04, type 1) and ("ab", no descriptor, type 2) -/
+def exNotes : List Spec.Note := [⟨1, [0x47, 0x4e, 0x55], [1, 2, 3, 4]⟩, ⟨2, [0x61, 0x62], []⟩]
+
+example (k : StreamKind) (isLazy : Bool) :
+    ∃ r : LoadRes, load {} { data := exImg, kind := k } isLazy = .ok r ∧
+      ∀ idx : BitVec 32, (∃ o1, inspect r.obj (.note 6 idx) = .ok (o1, .note (specNote exNotes idx.toNat))) ∧
+        (∃ o1, inspect r.obj (.segNote 0 idx) = .ok (o1, .note (specNote exNotes idx.toNat))) := by
+  obtain ⟨r, h1, h2, h3⟩ := of_load exImg {} k isLazy rfl exImg_wf
+  have h4 := segs_of_load exImg {} k isLazy rfl r h1 h2
+  refine ⟨r, h1, fun idx => ⟨?_, ?_⟩⟩
+  · obtain ⟨o1, _, _, h⟩ := notes_reports_spec exImg exImg_wf r.obj h3 6 (by decide +kernel) exNotes (by decide)
+      (by decide +kernel) (by decide +kernel) idx
+    exact ⟨o1, h⟩
+  · obtain ⟨o1, _, _, h⟩ := segment_notes_reports_spec exImg r.obj h3 h4 0 (by decide +kernel) exNotes (by decide)
+      (by decide +kernel) (by decide +kernel) idx
+    exact ⟨o1, h⟩
+example : specNote exNotes 1 = some ⟨2#32, [0x61, 0x62], none, 0#32⟩ ∧ specNote exNotes 2 = none := by decide
+
 end ElfioVerif.ComposeTables
